@@ -125,6 +125,12 @@ def run(ctx):
                 k = rng.choice([2, 3])
                 job["objective"], job["weights"] = f"multi{k}", [rng.choice([0.0, 0.5, 1.0, 2.0]) for _ in range(k)]
             js.append(job)
+    # systematic sweep: every accepted candidate value of every algorithm parameter, at the documented population size
+    for name in names:
+        for k, v in optimizers.param_variants(name):
+            for mc in (1, 3):
+                js.append({"name": name, "kind": "cont-sym", "specs": trace.task_specs(rng, rng.choice(["cont-sym", "cont", "cont-zero"]), rng.choice([2, 3, 5])), "objective": rng.choice(["sphere", "rastrigin"]),
+                           "minmax": rng.choice(["min", "max"]), "seed": rng.randrange(1, 10 ** 6), "cfg": {"max_cycles": mc, "fitness_error": None, k: v}, "mode": "serial", "trace": False, "stream": "strict"})
     base = jobs.baseline_pairs()
     per_pair = 3 if not ctx.thorough else 8
     for kind, ns in base.items():
